@@ -371,6 +371,9 @@ func runCore(seed uint64, n int, out *Out) {
 		bp.BatchSettlementCount = uint32(r.Pick([]int64{1, 2, 3, 5, 1000}))
 		bp.Constraints.MinAmount = sdkmath.NewInt(r.Pick([]int64{2, 2, 5, 10, 50}))
 		bp.Constraints.Fee = sdkmath.NewInt(r.Pick([]int64{0, 0, 1, 1, 2}))
+		if bp.Constraints.Fee.GTE(bp.Constraints.MinAmount) {
+			bp.Constraints.Fee = bp.Constraints.MinAmount.SubRaw(1) // the validator requires fee < minimum amount
+		}
 		e.App.BetKeeper.SetParams(e.Ctx, bp)
 		hp := e.App.HouseKeeper.GetParams(e.Ctx)
 		hp.MinDeposit = sdkmath.NewInt(r.Pick([]int64{2, 10, 100}))
@@ -388,6 +391,9 @@ func runCore(seed uint64, n int, out *Out) {
 			op.MaxOrderBookParticipations = 100
 			op.RequeueThreshold = uint64(r.Pick([]int64{0, 0, 0, 1}))
 			bp.Constraints.MinAmount = sdkmath.NewInt(2)
+			if bp.Constraints.Fee.GTE(bp.Constraints.MinAmount) {
+				bp.Constraints.Fee = sdkmath.NewInt(1)
+			}
 			e.App.BetKeeper.SetParams(e.Ctx, bp)
 		}
 		e.App.OrderbookKeeper.SetParams(e.Ctx, op)
